@@ -2552,11 +2552,11 @@ func buildExtensions(template *Certificate, _ []byte) (ret []pkix.Extension, err
 			out.Excluded = append(out.Excluded, generalSubtree{Value: asn1.RawValue{Tag: 4, Class: 2, IsCompound: true, Bytes: dn}})
 		}
 		for _, permitted := range template.PermittedIPAddresses {
-			ip := append(permitted.Data.IP, permitted.Data.Mask...)
+			ip := append(append([]byte{}, permitted.Data.IP...), permitted.Data.Mask...)
 			out.Permitted = append(out.Permitted, generalSubtree{Value: asn1.RawValue{Tag: 7, Class: 2, Bytes: ip}})
 		}
 		for _, excluded := range template.ExcludedIPAddresses {
-			ip := append(excluded.Data.IP, excluded.Data.Mask...)
+			ip := append(append([]byte{}, excluded.Data.IP...), excluded.Data.Mask...)
 			out.Excluded = append(out.Excluded, generalSubtree{Value: asn1.RawValue{Tag: 7, Class: 2, Bytes: ip}})
 		}
 		ret[n].Value, err = asn1.Marshal(out)
